@@ -112,6 +112,8 @@ def dhcpPad : V → Nat
   | .obj "p.dhcpoption" [.num t, _] => if t = 0 then 1 else 0
   | _ => 0
 
+theorem dhcp_one (o : V) : dhcpOptsWire [o] = dhcpOptWire o := by simp [dhcpOptsWire]
+
 theorem dhcpOptsWire_cons (o : V) (os : List V) : dhcpOptsWire (o :: os) = dhcpOptWire o ++ dhcpOptsWire os := rfl
 
 theorem dhcp_opt_shape (o : V) (h : DhcpOptOK o) :
